@@ -27,3 +27,42 @@ impl vstd::std_specs::convert::FromSpecImpl<BuilderError> for Error {
         match e { BuilderError::DuplicateKey => Error::DuplicateKey, BuilderError::TooLongSnap => Error::TooLongSnap, BuilderError::TooManyItems => Error::TooManyItems }
     }
 }
+use vstd::std_specs::iter::IteratorSpec;
+mod cmp { pub use core::cmp::Ordering; }
+fn vx_cmp_usize(a: usize, b: usize) -> (r: core::cmp::Ordering)
+    ensures r == (if a < b { core::cmp::Ordering::Less } else if a == b { core::cmp::Ordering::Equal } else { core::cmp::Ordering::Greater }),
+{ if a < b { core::cmp::Ordering::Less } else if a == b { core::cmp::Ordering::Equal } else { core::cmp::Ordering::Greater } }
+// slice::Iter<i32>::next().copied()
+fn vx_next_copied(it: &mut core::slice::Iter<i32>) -> (r: Option<i32>)
+    ensures
+        (*old(it)).remaining().len() == 0 ==> r is None && (*final(it)).remaining().len() == 0,
+        (*old(it)).remaining().len() > 0 ==> r == Some(*(*old(it)).remaining()[0])
+            && (*final(it)).remaining() == (*old(it)).remaining().skip(1),
+{
+    match it.next() { Some(x) => Some(*x), None => None }
+}
+impl RawSnap {
+    // limits as a representation invariant of every RawSnap reachable through add_item / prepare_item
+    spec fn wf(&self) -> bool {
+        self.offsets@.len() <= 1024 && 4 * (2 + 2 * self.offsets@.len() + self.buf@.len()) <= 65536
+    }
+}
+// libtw2_packer::IntUnpacker by contract
+#[verifier::external_body]
+pub struct IntUnpacker<'a> { _p: core::marker::PhantomData<&'a [i32]> }
+impl<'a> IntUnpacker<'a> {
+    pub uninterp spec fn rest(&self) -> Seq<i32>;
+    #[verifier::external_body]
+    pub fn new(slice: &'a [i32]) -> (r: IntUnpacker<'a>) ensures r.rest() == slice@, { unimplemented!() }
+    #[verifier::external_body]
+    pub fn as_slice(&self) -> (r: &'a [i32]) ensures r@ == self.rest(), { unimplemented!() }
+}
+impl SnapHeader {
+    // format.rs: two `positive(p.read_int()?)?` fields
+    #[verifier::external_body]
+    pub fn decode_obj(p: &mut IntUnpacker) -> (r: Result<SnapHeader, Error>)
+        ensures
+            r is Ok ==> r->Ok_0.data_size >= 0 && r->Ok_0.num_items >= 0
+                && (*old(p)).rest().len() >= 2 && (*final(p)).rest() == (*old(p)).rest().skip(2),
+    { unimplemented!() }
+}
